@@ -70,6 +70,7 @@ namespace {
     if (k == "ovdef" || k == "ovcall") return "ov_" + n("j") + "_" + n("t");
     if (k == "use" || k == "calluse") return "from_use";
     if (k == "klass" || k == "knew") return "K_" + n("id");
+    if (k == "addtype" || k == "readtype") return "ty_" + n("j");
     return "";
   }
 
@@ -98,7 +99,7 @@ namespace {
         J op = J::object();
         const int a = int(plan.below(uint64_t(T)));
         op["a"] = J(a);
-        const int kind = int(plan.below(22));
+        const int kind = int(plan.below(25));
         switch (kind) {
         case 0:
           op["k"] = J("shared");
@@ -223,6 +224,17 @@ namespace {
           op["id"] = J(plan.pick(kl));
           op["v"] = J(value_ctr++);
           break;
+        case 22:
+          op["k"] = J("tree"); // one parsed tree, evaluated by every actor through eval(AST_Node)
+          break;
+        case 23:
+          op["k"] = J("addtype");
+          op["j"] = J(int(plan.below(2)));
+          break;
+        case 24:
+          op["k"] = J("readtype");
+          op["j"] = J(int(plan.below(2)));
+          break;
         }
         ops.push(std::move(op));
       }
@@ -252,6 +264,7 @@ namespace {
       chai->add(fun([](const ConvB &b) { return b.v; }), "takes_b");
       chai->add(fun([](const ConvC &c) { return c.v; }), "takes_c");
       chai->eval("def shared_f(x) { var y = x * 2; var z = y + 1; t(z); return z }");
+      const AST_NodePtr shared_tree = chai->parse("fun(a) { var y = a * 2; var z = y + 1; return z }(21)");
 
       // ops per actor, in plan order
       std::vector<std::vector<size_t>> mine(static_cast<size_t>(T));
@@ -400,6 +413,27 @@ namespace {
             } else if (k == "getstate") {
               auto s = e.get_state();
               out = s.engine_state.m_functions.count(std::string("shared_f")) ? "=state" : "=state-without-shared_f";
+            } else if (k == "tree") {
+              try {
+                out = "=" + show(e.eval(*shared_tree), &e);
+              } catch (...) {
+                out = "!" + describe_current_exception(&e);
+              }
+            } else if (k == "addtype") {
+              try {
+                if (num("j") % 2 == 0) {
+                  e.add(user_type<ConvA>(), "Ty0");
+                } else {
+                  e.add(user_type<ConvB>(), "Ty1");
+                }
+                out = "=void";
+              } catch (const exception::name_conflict_error &) {
+                out = "!name_conflict|";
+              } catch (...) {
+                out = "!" + describe_current_exception(&e);
+              }
+            } else if (k == "readtype") {
+              out = eval_show(e, "type(\"Ty" + std::to_string(num("j") % 2) + "\", false).is_type_undef()");
             } else if (k == "klass") {
               const std::string cn = "K_" + sn("id");
               out = eval_show(e, "class " + cn + " { var v; def " + cn + "(x) { this.v = x }; def get() { this.v } }");
@@ -535,6 +569,17 @@ namespace {
           read_int(0);
         } else if (k == "getstate") {
           if (out != "=state") bad("get_state lost a function registered before the run");
+        } else if (k == "tree") {
+          if (out != "=i:43") bad("shared parsed tree evaluated to something else");
+        } else if (k == "addtype") {
+          // registering a type is two registry steps (global <name>_type, then the type table); only a
+          // registration that RETURNED successfully is part of the history, a reported conflict says nothing
+          if (out == "=void") add_op(LinOp::Add, 1, true);
+          else if (out != "!name_conflict|") bad("add(user_type) outcome");
+        } else if (k == "readtype") {
+          if (out == "=false") add_op(LinOp::Read, 1, true);
+          else if (out == "=true") add_op(LinOp::Read, -1, true);
+          else bad("type lookup outcome");
         } else if (k == "klass") {
           if (out == "=void") klass_def[key] = i;
           else bad("class definition failed");
